@@ -270,6 +270,16 @@ pub fn with_lang<T>(name: &str, f: impl FnOnce(&Lang) -> T) -> T {
     out
 }
 
+/// The public tokenisation of a stored title for the oracle side: taken with a language object of the pool (not the
+/// store's own) that tokenises an unrelated text first, so that whatever a language object keeps from its previous call
+/// is not the previous title of the same store.
+pub fn reference_tok(lang: &str, title: &str) -> TextOwn {
+    with_lang(lang, |l| {
+        let _ = tokenization::tokenize_record("zz 0", l);
+        tokenization::tokenize_record(title, l)
+    })
+}
+
 pub type Rec = (usize, String, usize); // (id, title, rating)
 pub type Hits = Vec<(usize, String)>;
 
